@@ -95,6 +95,12 @@ static void h_op(void)
   }
   if (!R) { h_out("bad-op"); return; }
   if (!strcmp(op, "peek")) { h_out("ok %" PRIu32, esl_random_uint32(R)); return; }
+  if (!strcmp(op, "poke")) {   /* force the next (pre-tempering) state word: reaches generator states that seeds make astronomically rare */
+    if (R->mti >= 624) (void) esl_random_uint32(R);
+    R->mt[R->mti] = (uint32_t) h_argu("raw", 0);
+    h_out("ok");
+    return;
+  }
 
   /* ---------------- text sequence ops ---------------- */
   if (!strcmp(op, "cshuffle") || !strcmp(op, "cshuffledp") || !strcmp(op, "ckmers") || !strcmp(op, "cwindows") ||
